@@ -6,12 +6,36 @@
    everything else (sorting, Galerkin products, level rules, smoother setup, cycle) is model. *)
 open Io
 
-let relax_of name damping =
+(* mk_relax : crs -> sweep * sweep for every relaxation the amg driver instantiates.
+   damped_jacobi / spai0 / gauss_seidel come from AmgExec.mk_relax_std (Relax.v),
+   ilu0 from Ilu.v, chebyshev (default parameters: degree 5, higher 1, lower (float)1/30,
+   Gershgorin bound, no scaling) from Cheby.v *)
+let float32_one_thirtieth = "2236962/67108864"   (* (float)(1.0f/30) = 0x3D088889 = 8947849 * 2^-28 *)
+let mk_relax name damping : Crs.crs -> Amg.sweep * Amg.sweep =
+  let dq = if damping = "-" then None else Some (box (parse_q damping)) in
   match name with
   | "damped_jacobi" ->
-    AmgExec.RJacobi (if damping = "-" then box (parse_q "18/25") else box (parse_q damping))
-  | "spai0" -> AmgExec.RSpai0
-  | "gauss_seidel" -> AmgExec.RGS
+    AmgExec.mk_relax_std sc (AmgExec.RJacobi (match dq with Some d -> d | None -> box (parse_q "18/25")))
+  | "spai0" -> AmgExec.mk_relax_std sc AmgExec.RSpai0
+  | "gauss_seidel" -> AmgExec.mk_relax_std sc AmgExec.RGS
+  | "ilu0" -> (fun a ->
+      match Ilu.ilu0 sc a [] with
+      | Ilu.Err _ -> raise (Model_exc "runtime_error")
+      | Ilu.Ok ((l, u), d) ->
+        let w = (match dq with Some d -> d | None -> sc.Scalar.s1) in
+        let sw = (fun rhs x t -> Ilu.ilu_sweep sc w l u d a rhs x t) in (sw, sw))
+  | "chebyshev" -> (fun a ->
+      let n = List.length a.Crs.rows in
+      let zeros = List.init n (fun _ -> sc.Scalar.s0) in
+      let cdm = Cheby.cheby_setup sc false a (Cheby.gershgorin sc false a)
+          (box (parse_q "8947849/268435456")) sc.Scalar.s1 [] in
+      (* p, r are per-object workspaces: carried across sweeps of this level *)
+      let p = ref zeros and r = ref zeros in
+      let sw = (fun rhs x t ->
+          let (((x', p'), r'), _) = Cheby.cheby_solve sc (Cheby.c_two sc) (Cheby.c_quarter sc)
+              (fst (fst cdm)) (snd (fst cdm)) (snd cdm) 5 a rhs x !p !r in
+          p := p'; r := r'; (x', t)) in
+      (sw, sw))
   | _ -> raise (Model_exc "UNSUPPORTED-relax")
 
 let show_levels (ls : Amg.ldesc list) =
@@ -31,7 +55,7 @@ let () =
     let a = t_crs t in
     let k = t_i t in
     let ts = List.init k (fun _ -> if t_i t = 1 then (let p = t_crs t in let r = t_crs t in Some (p, r)) else None) in
-    let rk = relax_of relax damping in
+    let mkr = mk_relax relax damping in
     let cop = AmgExec.coarse_op_of sc (if scale = "-" then None else Some (box (parse_q scale))) in
     if List.length a.Crs.rows <> a.Crs.ncols then raise (Model_exc "logic_error");
     let descs = ref (Amg.amg_init sc ce dc ml cop ts a) in
@@ -39,7 +63,7 @@ let () =
       List.iter (fun d -> match d with
           | Amg.LSolve m -> if not (AmgExec.solvable sc m) then raise (Model_exc "runtime_error")
           | _ -> ()) ds;
-      List.map (Amg.instantiate sc (AmgExec.mk_relax_std sc rk) (AmgExec.mk_solve_exact sc)) ds in
+      List.map (Amg.instantiate sc mkr (AmgExec.mk_solve_exact sc)) ds in
     let levels = ref (inst !descs) in
     let scr = ref (List.map (Amg.fresh_scratch sc) !descs) in
     let ns = t_i t in
